@@ -226,7 +226,9 @@ def handleExec (ds : DS) (j : Json) : IO DS := do
   let gasDiff := (r.gasLeft : Int) != implGas
   if !diffs.isEmpty then
     let (f, d) := diffs.head!
-    ds ← finding ds "diverge" "C16" ("vm:" ++ f) id
+    -- what a failed frame leaves behind is C18's matter as well (events, storage, accounts), and the accounts' coins C01's
+    let props := if f == "logs" || f == "storage" then "C16,C18" else if f == "accounts" then "C16,C18,C01" else "C16"
+    ds ← finding ds "diverge" props ("vm:" ++ f) id
       s!"{d} [{tag}] gas: model={r.gasLeft} impl={implGas} outcome: model={mOutcome} impl={implOutcome} code={codeHex} gaslimit={gas}"
   else if gasDiff then
     ds ← finding ds "diverge" "C17" "vm:gasLeft" id
